@@ -17,8 +17,8 @@ from . import gen, pool, stage, tlcrun
 from .common import log, scratch, Timer
 
 PARAMS = {
-    "quick": dict(nfam=420, n=3, smax=6, nover=90, nrand=60, nprefix=150, rand_len=6),
-    "thorough": dict(nfam=6000, n=4, smax=8, nover=1200, nrand=1500, nprefix=1500, rand_len=8),
+    "quick": dict(nfam=420, n=3, smax=6, nover=90, nrand=60, nprefix=150, rand_len=6, nlexamb=160, lexlen=5, nidiom=120, noverprefix=80, nlexseq=160, neps=110),
+    "thorough": dict(nfam=3000, n=4, smax=8, nover=1200, nrand=1500, nprefix=1500, rand_len=8, nlexamb=10**9, lexlen=7, nidiom=None, noverprefix=900, nlexseq=None, neps=None),
 }
 
 
@@ -48,6 +48,14 @@ def _jobs(tier, seed):
         pick = rng.sample(words, min(6, len(words)))
         inputs = [gen.render(w, rng.choice(gen.LAYOUTS[1:])) for w in pick] + ["  ", "\n"]
         jobs.append({"g": g, "inputs": inputs, "tables": ["LALR"], "origin": "det", "variant": "layout"})
+    # the same layout, written as a LAYOUT rule (a second table built from the same Grammar object first: the layout parser's), SLR too
+    rng = random.Random(4244)
+    for g in fam[1:: 5]:
+        words = gen.directed_inputs(g, rng, n_all=1, maxlen=p["smax"], n_sent=7, n_mut=2)
+        inputs = sorted({gen.render(w, rng.choice(gen.LAYOUTS)) for w in words})
+        g2 = {"prods": g["prods"], "terms": g["terms"] + [("WS_", "re", "\\s+")]}
+        jobs.append({"g": g2, "inputs": inputs, "tables": ["SLR", "LALR"], "origin": "det", "variant": "layoutrule",
+                     "extra": "LAYOUT: LayoutItem_*;\nLayoutItem_: WS_;\n"})
     # lexical overlap
     rng = random.Random(9001)
     k = 0
@@ -64,11 +72,50 @@ def _jobs(tier, seed):
                 inputs.append(w)
         inputs += [" ".join(w) + " " for w in rng.sample(inputs, 6)]
         jobs.append({"g": g, "inputs": inputs, "tables": ["LALR"], "origin": "det", "variant": "overlap"})
+    # lexical ambiguity between tokens of DIFFERENT length ("a" vs "aa" [vs "aaa"]): shifts deferred to a later round, heads in one
+    # state at different positions (finding D23: GSS node ids collided).  All grammars of F(3,2) that use both terminals.
+    for terms, tag, lim in ((gen.OVERLAP_TERMS[:2], "lexamb", p["nlexamb"]), (gen.OVERLAP_TERMS[:2] + [("t8", "str", "aaa")], "lexamb3", p["nlexamb"] // 2)):
+        tn = {t[0] for t in terms}
+        fam2 = [g for g in gen.family(3, 2, terms=terms, limit=None if len(terms) == 2 else 4000, rng_seed=81)
+                if {s for _, rhs in g["prods"] for s in rhs} >= tn]
+        wit = [g for g in gen.LEXAMB_WITNESSES if {t[0] for t in g["terms"]} == tn]
+        rng = random.Random(8181)
+        if len(fam2) > lim:
+            fam2 = rng.sample(fam2, lim)
+        for g in wit + fam2:
+            jobs.append({"g": g, "inputs": ["a" * n for n in range(1, p["lexlen"] + 1)], "tables": ["LALR"], "origin": "det", "variant": tag})
+    # hand-written list / optional idioms in sequence (gen.idiom_family)
+    rng = random.Random(8282)
+    for i, g in enumerate(gen.idiom_family(limit=p["nidiom"], rng_seed=4713)):
+        words = gen.directed_inputs(g, rng, n_all=2, maxlen=p["smax"], n_sent=10, n_mut=5)
+        inputs = sorted({gen.render(w, "spaces" if "," in w else rng.choice(["none", "none", "spaces"])) for w in words})
+        jobs.append({"g": g, "inputs": inputs, "tables": ["LALR", "SLR"] if i % 3 == 0 else ["LALR"], "origin": "det", "variant": "idiom"})
+    # lookahead propagation through chains of nullable nonterminals (gen.epschain_family)
+    rng = random.Random(8383)
+    for g in gen.epschain_family(limit=p["neps"], rng_seed=4771):
+        words = gen.directed_inputs(g, rng, n_all=3 if len(g["terms"]) < 3 else 2, maxlen=5, n_sent=8, n_mut=3)
+        jobs.append({"g": g, "inputs": sorted({"".join(w) for w in words}), "tables": ["LALR"], "origin": "det", "variant": "epschain"})
+    for g in gen.REJECT_WITNESSES:
+        jobs.append({"g": g, "inputs": [g["terms"][0][2] * n for n in range(0, 5)], "tables": ["LALR", "SLR"], "origin": "det", "variant": "plain"})
     # consume_input = False (C17), acyclic grammars only
     acyc = [g for g in fam if not gen.cyclic(g["prods"], [t[0] for t in g["terms"]])]
     rng = random.Random(4343)
     for i, g in enumerate(acyc[: p["nprefix"]]):
         jobs.append({"g": g, "inputs": _inputs_plain(g, p, rng), "tables": ["LALR"], "consume": False, "origin": "det", "variant": "prefix", "pretable": i % 3 == 2})
+    # consume_input = False under lexical overlap: a longer token is still pending while a shorter prefix is already accepted
+    # (round-2 seeded change C17-c: the main loop stopped as soon as no head could scan and something was accepted)
+    rng = random.Random(9002)
+    k = 0
+    while k < p["noverprefix"]:
+        g = gen.random_grammar(rng, nts=("S", "A"), term_pool=gen.OVERLAP_TERMS, nterm=(2, 3), nprod=(2, 4))
+        if g is None or gen.cyclic(g["prods"], [t[0] for t in g["terms"]]):
+            continue
+        k += 1
+        inputs = ["".join(w) for n in range(1, 5) for w in itertools.product("ab", repeat=n)]
+        jobs.append({"g": g, "inputs": inputs, "tables": ["LALR"], "consume": False, "origin": "det", "variant": "overlap-prefix"})
+    for i, g in enumerate(gen.lexseq_family(limit=p["nlexseq"])):
+        inputs = ["".join(w) for n in range(1, 5) for w in itertools.product("ab", repeat=n)] + ["aaaaa", "aaaab", "aabaa"]
+        jobs.append({"g": g, "inputs": inputs, "tables": ["LALR"], "consume": i % 4 == 3, "origin": "det", "variant": "lexseq" if i % 4 == 3 else "lexseq-prefix"})
     # seeded random extension
     rng = random.Random(1000003 * (seed + 1))
     k = 0
@@ -108,6 +155,12 @@ def judge(cases, tag="glr"):
     r2 = tlcrun.run_shards("GSSTrace", "GSSTrace.cfg", paths, procs=4, workers=4, tag="TRACE")
     v1 = {v[1]: v for r in r1 for v in r.verdicts}
     v2 = {v[1]: v for r in r2 for v in r.verdicts}
+    for path in paths:
+        try:
+            import os
+            os.unlink(path)
+        except OSError:
+            pass
     if len(v1) != len(built) or len(v2) != len(built):
         raise tlcrun.MachineryFailure("verdict count mismatch: %d cases, %d final-state verdicts, %d trace verdicts" % (len(built), len(v1), len(v2)))
     out = []
@@ -126,12 +179,30 @@ def judge(cases, tag="glr"):
     return out, stats
 
 
+CHUNK_CASES = 60000  # cases recorded and judged at a time (bounds memory: a recorded case carries its whole event trace)
+
+
 def build(tier, seed):
     t = Timer()
     jobs = _jobs(tier, seed)
-    cases = pool.flatten(pool.run_jobs("stage_glr", "worker", jobs))
-    log("glr corpus: %d jobs, %d cases recorded in %.1fs" % (len(jobs), len(cases), t.s()))
-    out, stats = judge(cases)
+    chunks, cur, n = [], [], 0
+    for j in jobs:
+        cur.append(j)
+        n += len(j["inputs"]) * len(j.get("tables", ["LALR"]))
+        if n >= CHUNK_CASES:
+            chunks.append(cur)
+            cur, n = [], 0
+    if cur:
+        chunks.append(cur)
+    out, stats = [], {"states": 0, "generated": 0, "build_errors": []}
+    for k, chunk in enumerate(chunks):
+        cases = pool.flatten(pool.run_jobs("stage_glr", "worker", chunk))
+        log("glr corpus %d/%d: %d jobs, %d cases recorded (%.1fs)" % (k + 1, len(chunks), len(chunk), len(cases), t.s()))
+        o, st = judge(cases, tag="glr%d" % k)
+        out += o
+        for key in stats:
+            stats[key] += st[key]
+        del cases
     stats["record_s"] = t.s()
     log("glr corpus judged in %.1fs" % t.s())
     return {"cases": out, "stats": stats}
